@@ -59,6 +59,8 @@ type cluster struct {
 	prevReply  map[uint64]*bls.SecretKey // the last share each recipient replied with (to someone else)
 	// deliver through the real gRPC receiver handlers (authenticated caller name in the context)
 	viaHandlers bool
+	// commit requests to these participants are lost (C12 retry scenario)
+	loseCommit map[uint64]bool
 	// a non-peer caller sends every message first (it must be refused and change nothing)
 	stranger                          string
 	strangerRefused, strangerAccepted int
@@ -227,6 +229,9 @@ func (r *router) Commit(ctx context.Context, recipient *core.Endpoint, account s
 	n, err := r.target(recipient)
 	if err != nil {
 		return nil, nil, err
+	}
+	if r.c.loseCommit[recipient.ID] {
+		return nil, nil, errors.New("injected: commit request lost")
 	}
 	if r.c.tamper(fmt.Sprintf("commit>%d", recipient.ID)) {
 		r.c.hit = false // commit faults are not part of C13's fault family
